@@ -24,7 +24,8 @@ def run(ck):
     absorb(ck, r, "cli", cmd=None)
     ck.add("traces_validated_against_impl", len(rows))
     ck.cov["exhaustive"] = True
-    ck.cov["rule"] = ("every configuration {workspace, single file} x {no input, text, line protocol} x {json, lineprotocol} x script kinds "
+    ck.cov["rule"] = ("every configuration {workspace, single file} x {no input, text, line protocol file starting with a point / with comment lines / with blank lines / whose first "
+                      "point has a line break inside a string field (the first POINT is the input)} x {json, lineprotocol} x script kinds "
                       "{no-op, add field, move to tag, set_measurement, default_time, drop message, use() of a sibling, load error, link "
                       "error, run error} is a behaviour of the Cli model (invariants PrintedIsFinal, CheckOnly, ErrorsInsteadOfOutput); each "
                       "is materialised on disk, run through the built `platypus run`, its output parsed back and compared with the library "
